@@ -162,7 +162,7 @@ impl PropCheck for C17 {
                 opts,
                 convert_host: if prop == "C17" { ch } else if prop == "C08" { false } else { ch && style % 3 != 0 },
                 host_is: host_is.map(|s| s.to_string()),
-                import_sign: if prop == "C18" && sign { Some("IMP".into()) } else { None },
+                import_sign: if (prop == "C18" || prop == "C10") && sign { Some("IMP".into()) } else { None },
             })
             .boxed()
     }
@@ -186,7 +186,7 @@ impl PropCheck for C17 {
     }
 
     fn owns_case(&self, v: &Value) -> bool {
-        v["raw_stage"].as_bool() != Some(true)
+        v["raw_stage"].as_bool() != Some(true) && v["case"].get("convert_host").is_some()
     }
 }
 
@@ -319,7 +319,7 @@ pub fn eval_case(prop: &'static str, c: &Case) -> Outcome {
     let exp_items = exp_normal.items();
     let model = ocss::model_tokens(&exp_items);
     let (toks, trailing) = ocss::tokenize_full(&run.normal);
-    align_full(&model, &toks, &trailing, Some(&c.opts), c.import_sign.as_deref(), &run.normal, &mut issues, false, &mut pairs);
+    align_full(&model, &toks, &trailing, Some(&c.opts), c.import_sign.as_deref(), &run.normal, &mut issues, prop == "C10", &mut pairs);
     out.units = model.len() as u64;
     let normal_ok = issues.iter().all(|i| i.class == "number");
     // low-priority output
@@ -328,7 +328,7 @@ pub fn eval_case(prop: &'static str, c: &Case) -> Outcome {
     let (low_toks, low_trailing) = ocss::tokenize_full(&run.low);
     let mut low_issues = vec![];
     let mut low_pairs = vec![];
-    align_full(&low_model, &low_toks, &low_trailing, Some(&c.opts), None, &run.low, &mut low_issues, false, &mut low_pairs);
+    align_full(&low_model, &low_toks, &low_trailing, Some(&c.opts), None, &run.low, &mut low_issues, prop == "C10", &mut low_pairs);
     if prop == "C19" && low_issues.iter().all(|i| i.class == "number") {
         // low-priority output: every token written through the token path (everything but the replayed wrappers) has an
         // entry at its generated column, and entries are ordered
@@ -386,12 +386,15 @@ pub fn eval_case(prop: &'static str, c: &Case) -> Outcome {
     for is in issues {
         let mine = match prop {
             "C19" => is.class == "map",
+            // C10 over sheets with imports (placeholder conditions) and converted :host rules: arithmetic only
+            "C10" => is.class == "number",
             _ => is.class != "map" && is.class != "number",
         };
         if !mine {
             continue;
         }
-        out.failures.push(Failure { sig: format!("{}|{}|{}", prop, is.class, is.key), tag: None, what: format!("{} — source {:?}", is.what, crate::util::truncate(&printed.text, 200)), detail: json!({"source": printed.text, "normal": run.normal, "low": run.low}) });
+        let tag = if prop == "C10" { super::c08::known_tag(prop, &super::c08::Issue { class: is.class, key: is.key.trim_start_matches("low:").to_string(), what: String::new() }) } else { None };
+        out.failures.push(Failure { sig: format!("{}|{}|{}", prop, is.class, is.key), tag, what: format!("{} — source {:?}", is.what, crate::util::truncate(&printed.text, 200)), detail: json!({"source": printed.text, "normal": run.normal, "low": run.low}) });
         if is.class == "tokens" {
             break;
         }
